@@ -64,7 +64,7 @@ func main() {
 	run.Assume("process liveness and bounded return are judged per case; a case still running D+10 s after it was logged is a hang", "coverage-guided fuzzing is not part of the quick tier")
 	run.Floor("handler_inputs", 100000)
 	run.Floor("parser_inputs", 50000)
-	run.Floor("hostile_cases", 800)
+	run.Floor("hostile_cases", 600)
 	for _, f := range []string{"serverless", "sumdb", "pixel", "rekor", "tiles", "distributor"} {
 		run.Floor("hostile:"+f, 50)
 	}
